@@ -30,13 +30,18 @@ MODELS = ['Refactor', 'Tree']
 MANIFEST = dict(
     text='Theorems over the model of refactoring.inline and extract._replace: inline either refuses (messages '
          'identical to the source, translator-checked) or rewrites only the references, the defining statement and '
-         'the leaf after it; its parenthesisation rule (EXPRESSION_PARTS taken from the source) is sound against a '
-         'precedence table of 58 syntactic slots x 20 kinds of right-hand side except for 20 listed rows, each '
-         'kernel-checked to be a counter-example and replayed on the real code (F7/F8 and relatives); _replace '
-         'inserts the extracted line into the prefix and keeps every other byte. Tie: translator + correspondence '
-         '(table rows through the real inline and through CPython ast; captured inline/_replace calls on generated '
-         'programs). Compiles-or-refuses, behavioural equivalence and the extract->inline round trip are checked '
-         'by compiling and executing generated programs (a test, labelled as such).',
+         'the leaf after it; its parenthesisation rule is translated from the source as data (EXPRESSION_PARTS, the '
+         'extra parent-type lists, the `**` disjunct, the attribute-reference slot; original and fixed shape both '
+         'accepted) and evaluated once against a precedence table of 58 syntactic slots x 20 kinds of right-hand '
+         'side: the unsound rows are exactly the listed ones (20 for the original source, each a kernel-checked '
+         'counter-example replayed on the real code = F7/F8 and relatives; none for the fixed shape, where the FULL '
+         'soundness theorem holds; a general theorem shows every rule at least as strong as the proposed fix is '
+         'sound); _replace inserts the extracted line into the prefix, keeps every other byte, and keeps the whole '
+         'prefix of the replaced expression. Tie: translator + correspondence (table rows through the real inline '
+         'and through CPython ast; captured inline/_replace calls on generated programs). Compiles-or-refuses, '
+         'behavioural equivalence and the extract->inline round trip are checked by compiling and executing '
+         'generated programs (a test, labelled as such); failures of known root causes are recognised by an '
+         'explicit syntactic rule per root cause (harness/gen/refactor_shapes.py), anything else is a VIOLATION.',
     note='Modelled not verified: which names get_references returns, _find_nodes (selection normalisation) and '
          "extract_function's input/output analysis are oracle-checked only; CPython's parser is the judge of "
          'the precedence table.',
